@@ -709,6 +709,20 @@ impl<C: Config> Engine<C> {
             .unwrap()
     }
 
+    /// Reads the fingerprint of the transitive firewall callees recorded for
+    /// a query that may never have been computed, without any lock.
+    pub(super) async fn peek_transitive_firewall_callees_fingerprint(
+        &self,
+        query_id: &QueryID,
+    ) -> Option<Compact128> {
+        self.computation_graph
+            .database
+            .node_info
+            .get(query_id)
+            .await
+            .map(|x| x.transitive_firewall_callees_fingerprint())
+    }
+
     /// Directly access the node info without any lock.
     ///
     /// This is only acceptable if you've made sure that the node has no
